@@ -160,6 +160,22 @@ def check(ctx):
         exp = [[_snap(v) for v in f] for f in arg] if nested else [_snap(v) for v in arg]
         if r != exp:
             ctx.violation(name, 'value', 'result %r expected %r' % (r[:4], exp[:4]), dict(shape='nested' if nested else 'flat'), input=arg)
+        # the caller owns the returned list ("returns a new list"): scribbling on it must not change what a later conversion
+        # of equal input returns (a result aliased with a cache / module-level object fails here, not on the first call)
+        try:
+            for fr in (r if nested else [r]):
+                if isinstance(fr, list):
+                    for k in range(len(fr)):
+                        fr[k] = 8987 - k
+                    fr.append(-1)
+            if isinstance(r, list):
+                r.append([7] if nested else 7)
+            r2 = fn(copy.deepcopy(arg))
+            if r2 != exp:
+                ctx.violation(name, 'result-aliased', 'after the caller modified the first result, converting equal input again gives %r, expected %r' % (r2[:4], exp[:4]),
+                              dict(shape='nested' if nested else 'flat'), input=arg)
+        except Exception as e:
+            ctx.violation(name, 'raises', 'second conversion: ' + type(e).__name__, dict(shape='nested' if nested else 'flat'), input=arg)
 
     for f in flats:
         shape_checks('rlc_to_mce', pyIRDecoder.rlc_to_mce, f, False)
